@@ -16,6 +16,8 @@
 (* The check is a one-state check: Init draws arbitrary digit arrays,      *)
 (* the invariant is the correctness statement.                             *)
 (*   apalache-mc check --cinit=CInit --inv=AlgsOK --length=0 ApaDigits.tla *)
+(* and, as a negative probe (the checker must find a counterexample):      *)
+(*   apalache-mc check --cinit=CInitMut --inv=UAddOK --length=0 ...        *)
 (***************************************************************************)
 EXTENDS Integers, Sequences, Apalache
 
@@ -23,7 +25,9 @@ CONSTANTS
     \* @type: Int;
     B,          \* digit base
     \* @type: Int;
-    N           \* digit count
+    N,          \* digit count
+    \* @type: Bool;
+    Mut         \* negative probe: TRUE replaces the carry test `s >= B` by `s > B` (must be refuted)
 
 VARIABLES
     \* @type: Seq(Int);
@@ -33,7 +37,8 @@ VARIABLES
     \* @type: Bool;
     cin
 
-CInit == B \in {256, 65536, 4294967296, 18446744073709551616} /\ N \in 1..4
+CInit == B \in {256, 65536, 4294967296, 18446744073709551616} /\ N \in 1..4 /\ Mut = FALSE
+CInitMut == B \in {256, 65536, 4294967296, 18446744073709551616} /\ N \in 1..4 /\ Mut = TRUE
 
 IsArr(x) == Len(x) = N /\ \A i \in 1..4 : i <= N => (x[i] >= 0 /\ x[i] < B)
 Init == /\ a = Gen(4) /\ b = Gen(4)
@@ -51,7 +56,7 @@ I(c) == IF c THEN 1 ELSE 0
 
 \* src/digit.rs carrying_add / borrowing_sub
 \* @type: (Int, Int, Bool) => <<Int, Bool>>;
-CarryAdd(x, y, c) == LET s == x + y + I(c) IN <<s % B, s >= B>>
+CarryAdd(x, y, c) == LET s == x + y + I(c) IN <<s % B, IF Mut THEN s > B ELSE s >= B>>
 \* @type: (Int, Int, Bool) => <<Int, Bool>>;
 BorrowSub(x, y, c) == LET d == x - y - I(c) IN <<d % B, d < 0>>
 
@@ -111,5 +116,6 @@ SCmp == IF SD(a[N]) > SD(b[N]) THEN 1 ELSE IF SD(a[N]) < SD(b[N]) THEN -1
              IN ApaFoldSeqLeft(St, 0, Idx(N - 1))
 CmpOK == UCmp = Sgn(Val(a) - Val(b)) /\ SCmp = Sgn(SVal(a) - SVal(b))
 
+UAddSubOK == UAddOK /\ USubOK
 AlgsOK == UAddOK /\ USubOK /\ SAddOK /\ SSubOK /\ CmpOK
 ==============================================================================
